@@ -280,6 +280,7 @@ def main(argv=None):
             witness = json.load(f)
         specs = [mod.replay_spec(ctx, witness)]
     else:
+        shutil.rmtree(os.path.join(VERIF, 'replays', pid), ignore_errors=True)
         specs = mod.shards(ctx)
     timeout = getattr(mod, 'TIMEOUT', {'quick': 900, 'thorough': 7200})[ctx.tier]
     parts, failures = run_shards(pid, specs, ctx.workers, timeout)
